@@ -195,6 +195,17 @@ def trees(max_leaves):
             for y in ids:
                 two.append(["and", [group, y]])
                 two.append(["or", False, [group, y]])
+        # parenthesised single operands, plain and negated, around plain and negated operands ("not (not b)"): a group with one
+        # member is still a group
+        singles = [a for a in by_n[1] if a[0] == "id" and a[2] in ("a", "b")] + CDS_REPRESENTATIVES[:2]
+        for inner in singles:
+            for neg in (False, True):
+                group = ["or", neg, [inner]]
+                for y in ids:
+                    if y[2] == "c" and not y[1]:
+                        two.append(["and", [group, y]])
+                        two.append(["and", [y, group]])
+                        two.append(["or", False, [y, group]])
         by_n[2] = two
     if max_leaves >= 3:
         three = [t for t in cds_groups(3) if leaves(t) == 3]
@@ -224,7 +235,34 @@ def trees(max_leaves):
             seen.add(_key(t))
             uniq.append(t)
         by_n[3] = uniq
+    def id_names(node):
+        if node[0] == "id":
+            return [node[2]]
+        kids = node[1] if node[0] == "and" else node[2] if node[0] == "or" else [node[2]] if node[0] == "cds" else []
+        return [name for kid in kids for name in id_names(kid)]
+
+    def has_single_group(node):
+        if node[0] == "id":
+            return False
+        kids = node[1] if node[0] == "and" else node[2] if node[0] == "or" else [node[2]] if node[0] == "cds" else []
+        return (node[0] == "or" and len(kids) == 1) or any(has_single_group(kid) for kid in kids)
+
     out = []
     for n in sorted(by_n):
-        out.extend(t for t in by_n[n] if positive(t))
+        for t in by_n[n]:
+            if not positive(t):
+                continue
+            # a parenthesised single operand next to the same operand unparenthesised is a repeated condition, which is refused
+            if has_single_group(t) and len(set(id_names(t))) < len(id_names(t)) and not any(k[0] == "cds" for k in _walk(t)):
+                continue
+            out.append(t)
     return out
+
+
+def _walk(node):
+    yield node
+    if node[0] == "id":
+        return
+    kids = node[1] if node[0] == "and" else node[2] if node[0] == "or" else [node[2]] if node[0] == "cds" else []
+    for kid in kids:
+        yield from _walk(kid)
